@@ -17,7 +17,16 @@ def run(ctx):
         if ctx.quick:            # a seeded random sample (a fixed stride aliases with the enumeration order of the factors)
             long = [s for s in scen if s["cfg"]["N"] > 100]          # the long schedule-only run is always kept
             rest = [s for s in scen if s["cfg"]["N"] <= 100]
-            scen = long + sorted(ctx.rng.sample(rest, min(len(rest), 180)), key=lambda s: json.dumps(s, sort_keys=True))
+            # stratified by the kinds of the training conditions, the validation condition, refit and scheduler: every class is present
+            key = lambda s: json.dumps([[c["kind"] for c in s["cfg"]["train"]], [c["kind"] + str(c.get("share", 0)) for c in s["cfg"]["val"]],
+                                        s["cfg"]["refit"], s["cfg"]["ssize"] > 0, s["cfg"]["mun"]])
+            # (refitted runs whose adaptive weights still move after the second start are few: all of them are kept)
+            moving = [s for s in rest if s["cfg"]["refit"] and any(c["kind"] == "adapt" and (c["p"], c["q"]) != (1, 0) for c in s["cfg"]["train"])]
+            rest = [s for s in rest if s not in moving]
+            scen = long + moving + ctx.stratified(rest, 0.12, key=key, min_per=2)
+            # the driver derives two history switches from the position (late weights: every 3rd, eval between fits: 2 of 4): give the
+            # refitted runs with adaptive weights consecutive positions so that both settings of eval_between occur
+            scen.sort(key=lambda s: (not (s["cfg"]["refit"] and any(c["kind"] == "adapt" for c in s["cfg"]["train"])), json.dumps(s, sort_keys=True)))
     traces = ctx.drive("c07", scen, timeout=3000, shards=12)
     ctx.validate("Trace_C07", traces, timeout=3000)
     ctx.rule = RULE
